@@ -1,12 +1,577 @@
-//! C18 — stub (not built yet).
+//! C18 — orthogonal polynomial constructors return the exact classical polynomials.
+//!
+//! Reference: closed-form coefficients in exact integer/rational arithmetic (i128 numerator,
+//! u128 denominator), cross-checked inside the harness against the integer three-term recurrences
+//! and a few literal textbook polynomials (stage `selfcheck`; a disagreement is a harness error,
+//! never a verdict). The space 5 families x n = 0..20 x 5 zero tolerances x {f64, Complex<f64>} is
+//! enumerated completely (stage `exhaustive`), nothing depends on the seed.
+
+use crate::json::J;
+use crate::probe::{self, Guarded};
 use crate::report::*;
+use crate::rng::CaseHash;
+use bacon_sci::polynomial::Polynomial;
+use bacon_sci::special;
+use nalgebra::ComplexField;
+use num_complex::Complex;
+use num_traits::FromPrimitive;
+
+const EPS: f64 = f64::EPSILON;
+const NMAX: u32 = 20;
+const TOLS: [f64; 5] = [1e-14, 1e-12, 1e-10, 1e-8, 1e-6];
+
+// ---- frozen constants (observed maxima on the repaired tree in brackets; see evidence `observed_maxima`)
+/// |c_k - exact_k| <= KC * eps * max(n,1) * (|exact_k| + theta * max_j |exact_j|), theta = 1 for chebyshev
+/// (FFT products), 0 for the other four families                            [worst 0.205 chebyshev, 0.055 laguerre, exactly 0 for the other three]
+const KC: f64 = 16.0;
+/// identities evaluated through `evaluate`: |lhs - rhs| <= KE * eps * max(n,1) * max_j|exact_j| * sum_k |x|^k   [worst 0.054]
+const KE: f64 = 16.0;
+/// three-term recurrence between three consecutive outputs, coefficient-wise:
+/// |residual_k| <= KR * eps * max(n,1) * (sum of the magnitudes of the three terms' scales)   [worst 0.13]
+const KR: f64 = 16.0;
+
+type C64 = Complex<f64>;
+
+#[derive(Clone, Copy, PartialEq, Eq, Debug)]
+enum Fam {
+    Legendre,
+    Hermite,
+    Laguerre,
+    Cheb1,
+    Cheb2,
+}
+const FAMS: [Fam; 5] = [Fam::Legendre, Fam::Hermite, Fam::Laguerre, Fam::Cheb1, Fam::Cheb2];
+impl Fam {
+    fn name(self) -> &'static str {
+        match self {
+            Fam::Legendre => "legendre",
+            Fam::Hermite => "hermite",
+            Fam::Laguerre => "laguerre",
+            Fam::Cheb1 => "chebyshev",
+            Fam::Cheb2 => "chebyshev_second",
+        }
+    }
+    /// 1 when the constructor multiplies polynomials by FFT (rounding noise of every coefficient is
+    /// proportional to the largest coefficient), 0 when every coefficient is produced by a
+    /// cancellation-free small-integer recurrence or its own closed form (rounding relative to itself;
+    /// coefficients that are exactly zero stay exactly zero)
+    fn absolute_noise(self) -> f64 {
+        match self {
+            Fam::Cheb1 => 1.0,
+            _ => 0.0,
+        }
+    }
+}
+
+// ------------------------------------------------------------------ exact reference
+
+mod exact {
+    use super::Fam;
+
+    /// exact rational num/den (den > 0)
+    #[derive(Clone, Copy, Debug, PartialEq, Eq)]
+    pub struct Q {
+        pub num: i128,
+        pub den: u128,
+    }
+    impl Q {
+        pub fn int(v: i128) -> Q {
+            Q { num: v, den: 1 }
+        }
+        /// nearest f64: numerator and denominator are both exactly representable (asserted), so the
+        /// single IEEE division is the correctly rounded value of the rational
+        pub fn to_f64(self) -> f64 {
+            let a = self.num as f64;
+            let b = self.den as f64;
+            assert!(a as i128 == self.num, "numerator {} not exactly representable", self.num);
+            assert!(b as u128 == self.den, "denominator {} not exactly representable", self.den);
+            a / b
+        }
+    }
+
+    pub fn fact(k: u32) -> u128 {
+        (1..=k as u128).product::<u128>().max(1)
+    }
+    pub fn binom(n: u32, k: u32) -> u128 {
+        if k > n {
+            return 0;
+        }
+        // multiplicative, exact at every step
+        let mut acc: u128 = 1;
+        for i in 0..k as u128 {
+            acc = acc * (n as u128 - i) / (i + 1);
+        }
+        acc
+    }
+    fn sgn(k: u32) -> i128 {
+        if k % 2 == 0 {
+            1
+        } else {
+            -1
+        }
+    }
+
+    /// ascending exact coefficients (index = power) from the classical closed forms
+    pub fn closed_form(f: Fam, n: u32) -> Vec<Q> {
+        let mut c = vec![Q::int(0); n as usize + 1];
+        match f {
+            Fam::Legendre => {
+                // P_n = 2^-n sum_k (-1)^k C(n,k) C(2n-2k,n) x^(n-2k)
+                for k in 0..=n / 2 {
+                    let v = binom(n, k) * binom(2 * n - 2 * k, n);
+                    c[(n - 2 * k) as usize] = Q { num: sgn(k) * v as i128, den: 1u128 << n };
+                }
+            }
+            Fam::Hermite => {
+                // H_n = sum_k (-1)^k n!/(k!(n-2k)!) 2^(n-2k) x^(n-2k)
+                for k in 0..=n / 2 {
+                    let v = fact(n) / (fact(k) * fact(n - 2 * k));
+                    assert!(fact(n) % (fact(k) * fact(n - 2 * k)) == 0);
+                    c[(n - 2 * k) as usize] = Q::int(sgn(k) * (v << (n - 2 * k)) as i128);
+                }
+            }
+            Fam::Laguerre => {
+                // L_n = sum_k (-1)^k C(n,k)/k! x^k
+                for k in 0..=n {
+                    c[k as usize] = Q { num: sgn(k) * binom(n, k) as i128, den: fact(k) };
+                }
+            }
+            Fam::Cheb1 => {
+                if n == 0 {
+                    c[0] = Q::int(1);
+                } else {
+                    // T_n = n/2 sum_k (-1)^k (n-k-1)!/(k!(n-2k)!) (2x)^(n-2k)
+                    for k in 0..=n / 2 {
+                        let num = n as u128 * fact(n - k - 1) * (1u128 << (n - 2 * k));
+                        let den = 2 * fact(k) * fact(n - 2 * k);
+                        assert!(num % den == 0);
+                        c[(n - 2 * k) as usize] = Q::int(sgn(k) * (num / den) as i128);
+                    }
+                }
+            }
+            Fam::Cheb2 => {
+                // U_n = sum_k (-1)^k C(n-k,k) (2x)^(n-2k)
+                for k in 0..=n / 2 {
+                    c[(n - 2 * k) as usize] = Q::int(sgn(k) * (binom(n - k, k) << (n - 2 * k)) as i128);
+                }
+            }
+        }
+        c
+    }
+
+    /// Integer three-term recurrences for an integer multiple s_n * p_n of the family:
+    /// returns (scaled integer coefficients, the scale s_n)
+    pub fn by_recurrence(f: Fam, n: u32) -> (Vec<i128>, u128) {
+        // a(x) shifted by one power
+        fn xmul(a: &[i128]) -> Vec<i128> {
+            let mut v = vec![0];
+            v.extend_from_slice(a);
+            v
+        }
+        fn comb(len: usize, terms: &[(i128, &[i128])]) -> Vec<i128> {
+            let mut v = vec![0i128; len];
+            for (m, a) in terms {
+                for (i, x) in a.iter().enumerate() {
+                    v[i] += m * x;
+                }
+            }
+            v
+        }
+        let (mut p0, mut p1): (Vec<i128>, Vec<i128>) = match f {
+            Fam::Legendre | Fam::Cheb1 => (vec![1], vec![0, 1]),
+            Fam::Hermite | Fam::Cheb2 => (vec![1], vec![0, 2]),
+            Fam::Laguerre => (vec![1], vec![1, -1]),
+        };
+        // scales: Legendre q_n = n! 2^n P_n?  use q_n = n! P_n:  q_{n+1} = (2n+1) x q_n - n^2 q_{n-1}
+        //         Laguerre l_n = n! L_n:       l_{n+1} = (2n+1-x) l_n - n^2 l_{n-1}
+        if n == 0 {
+            return (p0, 1);
+        }
+        for i in 1..n {
+            let ii = i as i128;
+            let xp = xmul(&p1);
+            let next = match f {
+                Fam::Legendre => comb(xp.len(), &[(2 * ii + 1, &xp), (-ii * ii, &p0)]),
+                Fam::Hermite => comb(xp.len(), &[(2, &xp), (-2 * ii, &p0)]),
+                Fam::Laguerre => comb(xp.len(), &[(2 * ii + 1, &p1), (-1, &xp), (-ii * ii, &p0)]),
+                Fam::Cheb1 | Fam::Cheb2 => comb(xp.len(), &[(2, &xp), (-1, &p0)]),
+            };
+            p0 = p1;
+            p1 = next;
+        }
+        let scale = match f {
+            Fam::Legendre | Fam::Laguerre => fact(n),
+            _ => 1,
+        };
+        (p1, scale)
+    }
+}
+
+
+fn exact_f64(f: Fam, n: u32) -> Vec<f64> {
+    exact::closed_form(f, n).iter().map(|q| q.to_f64()).collect()
+}
+
+// ------------------------------------------------------------------ field abstraction
+
+trait Fld: ComplexField<RealField = f64> + FromPrimitive + Copy + 'static {
+    const NAME: &'static str;
+    const COMPLEX: bool;
+    fn mk(re: f64, im: f64) -> Self;
+    fn c(self) -> C64;
+}
+impl Fld for f64 {
+    const NAME: &'static str = "f64";
+    const COMPLEX: bool = false;
+    fn mk(re: f64, _im: f64) -> f64 {
+        re
+    }
+    fn c(self) -> C64 {
+        C64::new(self, 0.0)
+    }
+}
+impl Fld for C64 {
+    const NAME: &'static str = "Complex<f64>";
+    const COMPLEX: bool = true;
+    fn mk(re: f64, im: f64) -> C64 {
+        C64::new(re, im)
+    }
+    fn c(self) -> C64 {
+        self
+    }
+}
+
+fn construct<N: Fld>(f: Fam, n: u32, tol: f64) -> Guarded<Result<Polynomial<N>, String>> {
+    probe::guard(|| match f {
+        Fam::Legendre => special::legendre::<N>(n, tol),
+        Fam::Hermite => special::hermite::<N>(n, tol),
+        Fam::Laguerre => special::laguerre::<N>(n, tol),
+        Fam::Cheb1 => special::chebyshev::<N>(n, tol),
+        Fam::Cheb2 => special::chebyshev_second::<N>(n, tol),
+    })
+}
+
+fn cj(v: C64) -> J {
+    J::Arr(vec![J::from(v.re), J::from(v.im)])
+}
+
+/// Construct and turn Err / panic into a violation. Returns the coefficients (ascending) and order.
+fn build<N: Fld>(rep: &mut Report, f: Fam, n: u32, tol: f64, case: &dyn Fn() -> J) -> Option<(Polynomial<N>, Vec<C64>)> {
+    rep.eval();
+    rep.count(&format!("{}/constructions", f.name()), 1);
+    match construct::<N>(f, n, tol) {
+        Guarded::Ok(Ok(p)) => {
+            let ord = p.order();
+            let cs: Vec<C64> = (0..=ord).map(|k| p.get_coefficient(k).c()).collect();
+            Some((p, cs))
+        }
+        Guarded::Ok(Err(e)) => {
+            rep.violation(&format!("{}/err", f.name()), case().set("n_constructed", n as u64), format!("{}({}, {:e}) returned Err({})", f.name(), n, tol, e));
+            None
+        }
+        Guarded::Panic(m, l) => {
+            rep.violation(&format!("{}/panic", f.name()), case().set("n_constructed", n as u64), format!("{}({}, {:e}) panicked: '{}' at {}", f.name(), n, tol, m, l));
+            None
+        }
+        Guarded::Budget => None,
+    }
+}
+
+/// order and coefficient oracle for one output; returns false when violated
+fn judge_coefficients(rep: &mut Report, f: Fam, n: u32, cs: &[C64], ex: &[f64], case: &dyn Fn() -> J) -> bool {
+    let name = f.name();
+    let ord = cs.len() - 1;
+    if ord != n as usize {
+        let lead: Vec<J> = cs.iter().skip(n as usize).take(6).map(|c| cj(*c)).collect();
+        rep.violation(
+            &format!("{}/order", name),
+            case().set("order", ord).set("coefficients_from_power_n", J::Arr(lead)),
+            format!("{}({}) has order() = {}, the classical polynomial has degree exactly {}", name, n, ord, n),
+        );
+        return false;
+    }
+    let mx = ex.iter().fold(0.0f64, |a, b| a.max(b.abs()));
+    let theta = f.absolute_noise();
+    let mut ok = true;
+    for k in 0..=ord.max(n as usize) {
+        let got = cs.get(k).copied().unwrap_or(C64::new(0.0, 0.0));
+        let want = ex.get(k).copied().unwrap_or(0.0);
+        let err = (got - C64::new(want, 0.0)).norm();
+        // rounding unit of this coefficient: its own magnitude, plus (FFT family only) the largest one
+        let unit = EPS * (n.max(1) as f64) * (want.abs() + theta * mx);
+        let ratio = if err == 0.0 { 0.0 } else { err / unit };
+        rep.max(&format!("{}/coef_err_over_unit", name), ratio);
+        if want == 0.0 {
+            rep.count(&format!("{}/zero_coefficients_checked", name), 1);
+        }
+        if k == n as usize {
+            rep.max(&format!("{}/leading_coef_relerr_over_eps", name), err / (EPS * want.abs()));
+        }
+        if !(err <= KC * unit) {
+            if ok {
+                rep.violation(
+                    &format!("{}/coefficient", name),
+                    case().set("power", k).set("got", cj(got)).set("exact", want),
+                    format!("{}({}): coefficient of x^{} is {:e}{:+e}i, exact value {:e} (|error| {:e} > bound {:e})", name, n, k, got.re, got.im, want, err, KC * unit),
+                );
+            }
+            ok = false;
+        }
+    }
+    ok
+}
+
+fn powsum(x: f64, n: u32) -> f64 {
+    let mut s = 0.0;
+    let mut p = 1.0;
+    for _ in 0..=n {
+        s += p;
+        p *= x;
+    }
+    s
+}
+
+/// identities observed through `evaluate`
+fn judge_identities<N: Fld>(rep: &mut Report, f: Fam, n: u32, p: &Polynomial<N>, ex: &[f64], n_theta: usize, case: &dyn Fn() -> J) {
+    let name = f.name();
+    let mx = ex.iter().fold(0.0f64, |a, b| a.max(b.abs()));
+    let nn = n.max(1) as f64;
+    let check = |rep: &mut Report, what: &str, sig: &str, x: C64, lhs: C64, rhs: C64, extra: f64| {
+        let err = (lhs - rhs).norm();
+        let unit = EPS * nn * mx * powsum(x.norm(), n) + extra;
+        rep.max(&format!("{}/{}_err_over_unit", name, sig), err / unit);
+        rep.count(&format!("{}/identity_points", name), 1);
+        if !(err <= KE * unit) {
+            rep.violation(
+                &format!("{}/{}", name, sig),
+                case().set("x", cj(x)).set("lhs", cj(lhs)).set("rhs", cj(rhs)),
+                format!("{}({}): {} at x = {:e}{:+e}i: {:e}{:+e}i vs {:e}{:+e}i (|difference| {:e} > {:e})", name, n, what, x.re, x.im, lhs.re, lhs.im, rhs.re, rhs.im, err, KE * unit),
+            );
+        }
+    };
+    let ev = |x: C64| -> C64 { p.evaluate(N::mk(x.re, x.im)).c() };
+    let one = C64::new(1.0, 0.0);
+    let sgn = if n % 2 == 0 { 1.0 } else { -1.0 };
+    // parity through evaluation (all families but Laguerre)
+    if f != Fam::Laguerre {
+        for x in [0.3, 0.77, 1.25] {
+            let x = C64::new(x, if N::COMPLEX { 0.2 } else { 0.0 });
+            check(rep, "p(-x) = (-1)^n p(x)", "parity", x, ev(-x), ev(x) * sgn, 0.0);
+        }
+    }
+    match f {
+        Fam::Legendre => {
+            check(rep, "P_n(1) = 1", "value-at-one", one, ev(one), one, 0.0);
+            check(rep, "P_n(-1) = (-1)^n", "value-at-one", -one, ev(-one), one * sgn, 0.0);
+        }
+        Fam::Laguerre => {
+            let z = C64::new(0.0, 0.0);
+            check(rep, "L_n(0) = 1", "value-at-zero", z, ev(z), one, 0.0);
+        }
+        Fam::Hermite => {
+            // H_n(0) = 0 (n odd), (-1)^(n/2) n!/(n/2)! (n even)
+            let z = C64::new(0.0, 0.0);
+            let want = if n % 2 == 1 { 0.0 } else { (if (n / 2) % 2 == 0 { 1.0 } else { -1.0 }) * (exact::fact(n) / exact::fact(n / 2)) as f64 };
+            check(rep, "H_n(0) = (-1)^(n/2) n!/(n/2)!", "value-at-zero", z, ev(z), C64::new(want, 0.0), 0.0);
+        }
+        Fam::Cheb1 | Fam::Cheb2 => {
+            for j in 0..n_theta {
+                let th = (j as f64 + 0.37) * std::f64::consts::PI / n_theta as f64;
+                // real angle for both fields, additionally a complex angle for the complex field
+                let mut angles = vec![C64::new(th, 0.0)];
+                if N::COMPLEX {
+                    angles.push(C64::new(th, 0.3));
+                }
+                for z in angles {
+                    let x = z.cos();
+                    // rounding of cos(z) and of n*z moves the right-hand side by <= (n+1)^2 eps |.|
+                    let (lhs, rhs, what) = if f == Fam::Cheb1 {
+                        (ev(x), (z * n as f64).cos(), "T_n(cos t) = cos(n t)")
+                    } else {
+                        (ev(x) * z.sin(), (z * (n as f64 + 1.0)).sin(), "U_n(cos t) sin t = sin((n+1) t)")
+                    };
+                    let extra = 4.0 * EPS * ((n + 1) * (n + 1)) as f64 * (1.0 + rhs.norm());
+                    check(rep, what, "trigonometric-identity", x, lhs, rhs, extra);
+                }
+            }
+        }
+    }
+}
+
+/// coefficient-wise three-term recurrence between the outputs for n-1, n, n+1
+fn judge_recurrence(rep: &mut Report, f: Fam, n: u32, lo: &[C64], mid: &[C64], hi: &[C64], exs: [&[f64]; 3], case: &dyn Fn() -> J) {
+    let name = f.name();
+    let nf = n as f64;
+    let g = |v: &[C64], k: i64| -> C64 {
+        if k < 0 {
+            C64::new(0.0, 0.0)
+        } else {
+            v.get(k as usize).copied().unwrap_or(C64::new(0.0, 0.0))
+        }
+    };
+    let m = |e: &[f64]| e.iter().fold(0.0f64, |a, b| a.max(b.abs()));
+    let (mlo, mmid, mhi) = (m(exs[0]), m(exs[1]), m(exs[2]));
+    let len = hi.len().max(mid.len() + 1).max(lo.len());
+    let mut worst = 0.0f64;
+    let mut worst_k = 0usize;
+    let mut scale = 0.0;
+    for k in 0..len as i64 {
+        let (res, sc) = match f {
+            // (n+1) P_{n+1} = (2n+1) x P_n - n P_{n-1}
+            Fam::Legendre => (g(hi, k) * (nf + 1.0) - g(mid, k - 1) * (2.0 * nf + 1.0) + g(lo, k) * nf, (nf + 1.0) * mhi + (2.0 * nf + 1.0) * mmid + nf * mlo),
+            // H_{n+1} = 2x H_n - 2n H_{n-1}
+            Fam::Hermite => (g(hi, k) - g(mid, k - 1) * 2.0 + g(lo, k) * (2.0 * nf), mhi + 2.0 * mmid + 2.0 * nf * mlo),
+            // (n+1) L_{n+1} = (2n+1-x) L_n - n L_{n-1}
+            Fam::Laguerre => (g(hi, k) * (nf + 1.0) - g(mid, k) * (2.0 * nf + 1.0) + g(mid, k - 1) + g(lo, k) * nf, (nf + 1.0) * mhi + (2.0 * nf + 2.0) * mmid + nf * mlo),
+            // X_{n+1} = 2x X_n - X_{n-1}
+            Fam::Cheb1 | Fam::Cheb2 => (g(hi, k) - g(mid, k - 1) * 2.0 + g(lo, k), mhi + 2.0 * mmid + mlo),
+        };
+        scale = sc;
+        if res.norm() > worst || res.norm().is_nan() {
+            worst = res.norm();
+            worst_k = k as usize;
+        }
+    }
+    let unit = EPS * (nf + 1.0) * scale;
+    rep.max(&format!("{}/recurrence_residual_over_unit", name), worst / unit);
+    rep.count(&format!("{}/recurrences_checked", name), 1);
+    if !(worst <= KR * unit) {
+        rep.violation(
+            &format!("{}/three-term-recurrence", name),
+            case().set("power", worst_k).set("residual", worst),
+            format!("{}: outputs for n = {}, {}, {} violate the three-term recurrence at x^{}: residual {:e} > {:e}", name, n - 1, n, n + 1, worst_k, worst, KR * unit),
+        );
+    }
+}
+
+fn run_case<N: Fld>(rep: &mut Report, f: Fam, n: u32, tol: f64, n_theta: usize) {
+    let ex = exact_f64(f, n);
+    let exq = exact::closed_form(f, n);
+    let case = || {
+        J::obj()
+            .set("family", f.name())
+            .set("n", n as u64)
+            .set("zero_tolerance", tol)
+            .set("field", N::NAME)
+            .set("exact_coefficients_ascending", J::Arr(exq.iter().map(|q| J::from(format!("{}/{}", q.num, q.den))).collect::<Vec<_>>()))
+    };
+    rep.nontrivial(CaseHash::new("c18").s(f.name()).u(n as u64).f(tol).u(N::COMPLEX as u64).0);
+    rep.count("cells", 1);
+    rep.count(&format!("{}/cells", f.name()), 1);
+    let (p, cs) = match build::<N>(rep, f, n, tol, &case) {
+        Some(v) => v,
+        None => return,
+    };
+    let case_full = || case().set("order", cs.len() - 1).set("coefficients_ascending", J::Arr(cs.iter().map(|c| if N::COMPLEX { cj(*c) } else { J::from(c.re) }).collect::<Vec<_>>()));
+    let ok = judge_coefficients(rep, f, n, &cs, &ex, &case_full);
+    if ok {
+        rep.count(&format!("{}/exact_to_rounding", f.name()), 1);
+    }
+    judge_identities::<N>(rep, f, n, &p, &ex, n_theta, &case_full);
+    // recurrence between consecutive outputs (needs n-1 and n+1 inside 0..=20)
+    if n >= 1 && n < NMAX {
+        let lo = build::<N>(rep, f, n - 1, tol, &case_full);
+        let hi = build::<N>(rep, f, n + 1, tol, &case_full);
+        if let (Some((_, lo)), Some((_, hi))) = (lo, hi) {
+            let e0 = exact_f64(f, n - 1);
+            let e2 = exact_f64(f, n + 1);
+            judge_recurrence(rep, f, n, &lo, &cs, &hi, [&e0, &ex, &e2], &case_full);
+        }
+    }
+    if rep.wants_sample() && n >= 6 {
+        rep.sample(case_full().set("coefficients_exact_to_rounding", ok));
+    }
+}
+
+// ------------------------------------------------------------------ harness self-check of the reference
+
+fn selfcheck() {
+    use exact::*;
+    for f in FAMS {
+        for n in 0..=NMAX {
+            let cf = closed_form(f, n);
+            let (rc, scale) = by_recurrence(f, n);
+            assert!(cf.len() == rc.len(), "reference length {:?} {}", f, n);
+            for k in 0..cf.len() {
+                // cf[k] * scale == rc[k]
+                let lhs = cf[k].num * scale as i128;
+                let rhs = rc[k] * cf[k].den as i128;
+                assert!(lhs == rhs, "closed form and integer recurrence disagree: {:?} n={} k={}: {}/{} * {} vs {}", f, n, k, cf[k].num, cf[k].den, scale, rc[k]);
+                let _ = cf[k].to_f64();
+            }
+        }
+    }
+    let lit = |f: Fam, n: u32, want: &[(i128, u128)]| {
+        let cf = closed_form(f, n);
+        for (k, (a, b)) in want.iter().enumerate() {
+            assert!(cf[k].num * (*b as i128) == *a * cf[k].den as i128, "literal check {:?} {} power {}", f, n, k);
+        }
+    };
+    lit(Fam::Legendre, 5, &[(0, 1), (15, 8), (0, 1), (-70, 8), (0, 1), (63, 8)]);
+    lit(Fam::Hermite, 5, &[(0, 1), (120, 1), (0, 1), (-160, 1), (0, 1), (32, 1)]);
+    lit(Fam::Laguerre, 3, &[(1, 1), (-3, 1), (3, 2), (-1, 6)]);
+    lit(Fam::Cheb1, 5, &[(0, 1), (5, 1), (0, 1), (-20, 1), (0, 1), (16, 1)]);
+    lit(Fam::Cheb2, 4, &[(1, 1), (0, 1), (-12, 1), (0, 1), (16, 1)]);
+    // exact normalisations of the reference itself
+    for n in 0..=NMAX {
+        let s: i128 = closed_form(Fam::Legendre, n).iter().map(|q| q.num).sum();
+        assert!(s == 1i128 << n, "reference P_n(1) != 1");
+        assert!(closed_form(Fam::Laguerre, n)[0] == Q::int(1));
+        assert!(closed_form(Fam::Hermite, n)[n as usize] == Q::int(1i128 << n));
+        assert!(closed_form(Fam::Cheb2, n)[n as usize] == Q::int(1i128 << n));
+        if n >= 1 {
+            assert!(closed_form(Fam::Cheb1, n)[n as usize] == Q::int(1i128 << (n - 1)));
+        }
+    }
+}
+
+// ------------------------------------------------------------------ interface
 
 pub fn meta() -> CheckMeta {
-    CheckMeta { id: "C18", level: "exploration", rule: "stub".into(), assumptions: vec![], exhaustive: false, stuck_is_violation: false }
+    CheckMeta {
+        id: "C18",
+        level: "exploration",
+        rule: "complete enumeration: 5 families (legendre, hermite, laguerre, chebyshev, chebyshev_second) x n = 0..20 x zero tolerance {1e-14,1e-12,1e-10,1e-8,1e-6} x {f64, Complex<f64>} = 1050 cells; every cell is a distinct non-trivial case (hash of family, n, tolerance, field). Per cell: order() == n, every coefficient against the exact rational closed form, identities through evaluate (P_n(+-1), L_n(0), H_n(0), parity, T_n(cos t)=cos nt, U_n(cos t) sin t = sin (n+1)t at real and complex t), and the three-term recurrence between the outputs for n-1, n, n+1".into(),
+        assumptions: vec![
+            "exact coefficients: closed forms in i128/u128, agreeing with the integer three-term recurrences for all n <= 20 (checked in stage selfcheck); numerators and denominators are exactly representable in f64, so the reference value is the correctly rounded rational".into(),
+            format!("coefficient bound {} eps max(n,1) (|exact_k| + theta max_j|exact_j|), theta = 1 for chebyshev (FFT products), 0 otherwise (cancellation-free integer recurrences / per-coefficient closed form: exactly-zero coefficients must be exactly zero); evaluation identities {} eps max(n,1) max_j|exact_j| sum_k|x|^k; recurrence residual {} eps (n+1) (sum of term scales)", KC, KE, KR),
+            "n = 0..20 is the range where all coefficients are below 2^53 (monomial form representable without loss)".into(),
+        ],
+        exhaustive: true,
+        stuck_is_violation: false,
+    }
 }
-pub fn stages(_ctx: &Ctx) -> Vec<Stage> {
-    vec![]
+
+pub fn stages(ctx: &Ctx) -> Vec<Stage> {
+    let n_theta = ctx.tier.pick(7usize, 61usize);
+    let mut st = vec![];
+    st.push(Stage::new("selfcheck", 1, move |_i, rep| {
+        selfcheck();
+        rep.count("reference_selfcheck_passed", 1);
+    }));
+    let total = (FAMS.len() * (NMAX as usize + 1) * TOLS.len() * 2) as u64;
+    st.push(Stage::new("exhaustive", total, move |i, rep| {
+        let f = FAMS[(i % 5) as usize];
+        let n = ((i / 5) % (NMAX as u64 + 1)) as u32;
+        let tol = TOLS[((i / 105) % 5) as usize];
+        let complex = i / 525 == 1;
+        if complex {
+            run_case::<C64>(rep, f, n, tol, n_theta);
+        } else {
+            run_case::<f64>(rep, f, n, tol, n_theta);
+        }
+    }));
+    st
 }
-pub fn thresholds(_ctx: &Ctx, _rep: &Report) -> Vec<Threshold> {
-    vec![Threshold { what: "check not built".into(), required: 1.0, observed: 0.0 }]
+
+pub fn thresholds(_ctx: &Ctx, rep: &Report) -> Vec<Threshold> {
+    let mut t = vec![
+        Threshold { what: "reference self-check (closed form == integer recurrence == literals) ran".into(), required: 1.0, observed: rep.counter("reference_selfcheck_passed") as f64 },
+        Threshold { what: "cells (family, n, tolerance, field) enumerated".into(), required: 1050.0, observed: rep.counter("cells") as f64 },
+    ];
+    for f in FAMS {
+        t.push(Threshold { what: format!("{} cells enumerated", f.name()), required: 210.0, observed: rep.counter(&format!("{}/cells", f.name())) as f64 });
+        t.push(Threshold { what: format!("{} three-term recurrences checked between consecutive outputs", f.name()), required: 190.0, observed: rep.counter(&format!("{}/recurrences_checked", f.name())) as f64 });
+    }
+    t
 }
